@@ -363,7 +363,16 @@ def beh_case(chk, i, use_miri=False):
         rc, so, se, _ = sh([exe], timeout=60)
     problems = []
     if rc != 0:
-        if "panicked" in se and "__BindgenBitfieldUnit" in se and re.search(r"sh[lr]_overflow|shift (left|right) with overflow", se):
+        in_unit = "__BindgenBitfieldUnit" in se
+        mloc = re.search(r"panicked at \S*bb%d\.rs:(\d+):" % i, se)
+        if mloc and not in_unit:
+            # without a backtrace (Miri) only the location is printed: is it inside `impl __BindgenBitfieldUnit`?
+            blines = open(b).read().splitlines()
+            ln = min(int(mloc.group(1)), len(blines)) - 1
+            while ln >= 0 and not re.match(r"^(impl|pub struct|pub union|pub fn|unsafe extern|const _)", blines[ln]):
+                ln -= 1
+            in_unit = ln >= 0 and "__BindgenBitfieldUnit" in blines[ln]
+        if "panicked" in se and in_unit and re.search(r"sh[lr]_overflow|shift (left|right) with overflow", se):
             return Verdict(HELD, name, obs={"cases_hitting_recorded_C03_span_over_64": 1})
         if "panicked" in se:
             problems.append("a generated impl panicked: " + se[-500:])
